@@ -548,4 +548,70 @@ example : nonws [43, 97, 32, 10] ≠ nonws [43, 98, 10] := by decide
 example : patchOk splitLines (some [43, 35, 32, 66, 10]) = true ∧ isLine blank = true ∧
     endsNL [43, 97, 10] = true ∧ isWs 97 = false := by decide
 
+/-! ## revision property lines of the 0.8 / 0.9 bundle footer -/
+
+theorem splitSep_propLine (k v : PStr) (h : hasSep k = false) : splitSep (propLine k v) = some (k, v) := by
+  induction k with
+  | nil => simp [propLine, splitSep]
+  | cons c r ih =>
+    cases r with
+    | nil =>
+      simp only [propLine, List.cons_append, List.nil_append, splitSep]
+      simp
+    | cons d r' =>
+      simp only [hasSep, Bool.or_eq_false_iff] at h
+      have ih' := ih h.2
+      simp only [propLine, List.cons_append] at ih' ⊢
+      simp only [splitSep, h.1, ih']
+      simp
+
+/-- **Every revision property survives the footer**: a property whose key has
+no `": "`, blank or newline (the keys `Revision` accepts) is read back with
+exactly its value — whatever the value contains, further `": "` included. -/
+theorem prop_line_roundtrip (k v : PStr) (hk : keyOk k = true) (hs : hasSep k = false) :
+    parsePropLine (propLine k v) = some (k, v) := by
+  unfold parsePropLine
+  simp only [splitSep_propLine k v hs, hk, if_true]
+
+/-- a key without a blank has no `": "` -/
+theorem keyOk_noSep (k : PStr) (hk : keyOk k = true) : hasSep k = false := by
+  have hb : ' ' ∉ k := by
+    intro h
+    simp [keyOk, h] at hk
+  clear hk
+  induction k with
+  | nil => rfl
+  | cons c r ih =>
+    cases r with
+    | nil => rfl
+    | cons d r' =>
+      have hd : d ≠ ' ' := by
+        intro e
+        exact hb (by simp [e])
+      have hr : ' ' ∉ d :: r' := fun h => hb (List.mem_cons_of_mem _ h)
+      simp [hasSep, ih hr, hd]
+
+/-- hence for every key `Revision` accepts, every value -/
+theorem prop_line_roundtrip_valid (k v : PStr) (hk : keyOk k = true) :
+    parsePropLine (propLine k v) = some (k, v) :=
+  prop_line_roundtrip k v hk (keyOk_noSep k hk)
+
+/-- whole property lists: `from_revision` then `as_revision` gives back the pairs -/
+theorem prop_lines_roundtrip (ps : List (PStr × PStr)) (hk : ∀ p ∈ ps, keyOk p.1 = true) :
+    (ps.map fun p => propLine p.1 p.2).mapM parsePropLine = some ps := by
+  induction ps with
+  | nil => rfl
+  | cons p t ih =>
+    have h1 := prop_line_roundtrip_valid p.1 p.2 (hk p (by simp))
+    have h2 := ih (fun q hq => hk q (by simp [hq]))
+    simp only [List.map_cons, List.mapM_cons, h1, h2]
+    rfl
+
+-- non-vacuity: a value with two further separators and one ending in a colon
+example : parsePropLine (propLine "review-note".toList "see: ticket 12: handle".toList)
+      = some ("review-note".toList, "see: ticket 12: handle".toList)
+    ∧ parsePropLine (propLine "k".toList "ends:".toList) = some ("k".toList, "ends:".toList)
+    ∧ parsePropLine "empty:".toList = some ("empty".toList, [])
+    ∧ parsePropLine "no separator".toList = none := by decide
+
 end BreezyVerif.C40
